@@ -51,7 +51,7 @@ CHECKS = {
    note="Index-shift theorems are proved for the voting models; for the other rules the shift is checked on the real code only (stated in DESIGN.md).",
    technique="Lean 4 proof + differential / metamorphic correspondence"),
  "C03": dict(level="proof", design="6/C03",
-   text="Lean theorems about an executable mirror of the WHOLE algorithm (IrvingAlgo: male-optimal matching by the proved Gale-Shapley model, shortlists, level-wise rotation discovery, sparse rotation poset, maximum-weight closed subset through the proved max-flow model, elimination): C03_irving_sound (every answer is a perfect stable matching) and C03_irving_optimal (every answer has the value Brute.optStable, which is PROVED to be the maximum over all stable matchings: C03_optStable_spec), for every n, under the one hypothesis WeightBound (total negative rotation weight below sys.maxsize, the 'infinite' capacity the code itself uses). The optimality proof formalises the Irving-Leather-Gusfield theory: lattice of stable matchings (C03_stable_meet/join), every stable matching is reached from the man-optimal one by eliminating exposed rotations (C03_reachable_from_man_optimal), the rotations on a path are unique (C03_path_rotations_unique), optStable = max over elimination sequences, the mirror's discovery finds a maximal chain (C03_allRotations_maximal_chain), the sparse poset's edges are exactly sound and complete (C03_posetGraph_sound_complete: Rules 1 and 2), Picard's reduction for the closed subset (C03_closedSubset_max, from C08). Correspondence: the implementation's final answer AND every internal stage (male-optimal matching, shortlists, rotations + eliminating map, poset edges, rotation weights + chosen closed subset) equal the mirror's; the closed-subset stage is also driven directly on random posets. Independently every output is checked against the model's brute-force optimum (n <= 7) and an LP-dual certificate (z3-found, Lean-checked smCertOk: C03_cert_sound) for larger n.",
+   text="Lean theorems about an executable mirror of the WHOLE algorithm (IrvingAlgo: male-optimal matching by the proved Gale-Shapley model, shortlists, level-wise rotation discovery, sparse rotation poset, maximum-weight closed subset through the proved max-flow model, elimination): C03_irving_sound (every answer is a perfect stable matching) and C03_irving_optimal (every answer has the value Brute.optStable, which is PROVED to be the maximum over all stable matchings: C03_optStable_spec), for every n, under the one hypothesis WeightBound (total negative rotation weight below sys.maxsize, the 'infinite' capacity the code itself uses; decidable: C03_weightBoundB_iff, evaluated on every explored instance; implied by |valuations| <= B with 4 n^2 B < sys.maxsize: C03_irving_optimal_of_bounded). The optimality proof formalises the Irving-Leather-Gusfield theory: lattice of stable matchings (C03_stable_meet/join), every stable matching is reached from the man-optimal one by eliminating exposed rotations (C03_reachable_from_man_optimal), the rotations on a path are unique (C03_path_rotations_unique), optStable = max over elimination sequences, the mirror's discovery finds a maximal chain (C03_allRotations_maximal_chain), the sparse poset's edges are exactly sound and complete (C03_posetGraph_sound_complete: Rules 1 and 2), Picard's reduction for the closed subset (C03_closedSubset_max, from C08). Correspondence: the implementation's final answer AND every internal stage (male-optimal matching, shortlists, rotations + eliminating map, poset edges, rotation weights + chosen closed subset) equal the mirror's; the closed-subset stage is also driven directly on random posets. Independently every output is checked against the model's brute-force optimum (n <= 7) and an LP-dual certificate (z3-found, Lean-checked smCertOk: C03_cert_sound) for larger n.",
    note="Trusted: Lean kernel + propext/Classical.choice/Quot.sound; the hand-written mirror is tied to the Python code stage by stage by differential runs. z3 only finds certificates (never trusted).",
    technique="Lean 4 proof of the algorithm's mirror (soundness + optimality via the rotation-poset theory) + stage-wise differential correspondence + per-output certificates"),
  "C14": dict(level="proof", design="6/C14",
